@@ -623,6 +623,19 @@ theorem restored_inv (b : Bytes) (c' : Conn) (h : restore fresh b = (c', .rc 0))
   · intro e he _; rw [hq] at he; exact (hpr e he).2.1
 
 
+/-- the blob determines everything it is meant to carry: two resumable states with the same blob
+    agree on counters, session id, unsent texts and unacknowledged (number, text) pairs -/
+theorem serialize_injective (c₁ c₂ : Conn) (h₁ : Serializable c₁) (h₂ : Serializable c₂) (b : Bytes)
+    (hb₁ : serialize c₁ = .blob b) (hb₂ : serialize c₂ = .blob b) :
+    c₁.q.sentNr = c₂.q.sentNr ∧ c₁.handledNr = c₂.handledNr ∧ c₁.smId = c₂.smId ∧
+    c₁.q.queue.map (·.data) = c₂.q.queue.map (·.data) ∧
+    c₁.q.smQueue.map (fun e => (e.smH, e.data)) = c₂.q.smQueue.map (fun e => (e.smH, e.data)) := by
+  obtain ⟨a, ha, a1, a2, a3, a4, -, a5, -⟩ := restore_serialize c₁ h₁ b hb₁
+  obtain ⟨d, hd, d1, d2, d3, d4, -, d5, -⟩ := restore_serialize c₂ h₂ b hb₂
+  have : a = d := by rw [ha] at hd; exact (Prod.mk.inj hd).1
+  subst this
+  exact ⟨a1.symm.trans d1, a2.symm.trans d2, a3.symm.trans d3, a4.symm.trans d4, a5.symm.trans d5⟩
+
 /-! ### a restored connection and everything done with it afterwards -/
 section RestoredHistory
 open Strophe.Lemmas.SendQueue
